@@ -11,6 +11,9 @@ struct Fam {
     kind: &'static str,
     timeout: u32,
     mem: u32,
+    /// share (per mille) of the applicable shapes kept in the quick tier (hash-selected, fixed);
+    /// the thorough tier takes all of them.  Keeps every quick check well below 15 minutes.
+    quick_keep: u64,
 }
 
 fn applicable(f: &Fam, g: &GShape) -> bool {
@@ -36,22 +39,29 @@ fn applicable(f: &Fam, g: &GShape) -> bool {
     }
 }
 
-pub fn emit_wrappers(all: &[GShape], out_dir: &str) {
+pub fn emit_wrappers(all: &[GShape], out_dir: &str, tier: &str) {
     let fams = [
-        Fam { prop: "c01", body: "c01", batch: 8, kind: "W", timeout: 1500, mem: 4 },
-        Fam { prop: "c02", body: "c02", batch: 4, kind: "W", timeout: 1800, mem: 4 },
-        Fam { prop: "c03", body: "c03", batch: 4, kind: "W", timeout: 1800, mem: 4 },
-        Fam { prop: "c04", body: "c04", batch: 40, kind: "V", timeout: 900, mem: 4 },
-        Fam { prop: "c06", body: "c06", batch: 4, kind: "V", timeout: 1800, mem: 4 },
-        Fam { prop: "c06", body: "c06_d", batch: 10, kind: "W", timeout: 1500, mem: 4 },
-        Fam { prop: "c07", body: "c07", batch: 4, kind: "V", timeout: 1800, mem: 4 },
-        Fam { prop: "c09", body: "c09", batch: 8, kind: "W", timeout: 1500, mem: 4 },
-        Fam { prop: "c17", body: "c17", batch: 8, kind: "W", timeout: 1500, mem: 4 },
-        Fam { prop: "c13", body: "c13", batch: 6, kind: "W", timeout: 1500, mem: 4 },
+        Fam { prop: "c01", body: "c01", batch: 8, kind: "W", timeout: 1500, mem: 4, quick_keep: 1000 },
+        Fam { prop: "c02", body: "c02", batch: 4, kind: "W", timeout: 1800, mem: 4, quick_keep: 600 },
+        Fam { prop: "c03", body: "c03", batch: 4, kind: "W", timeout: 1800, mem: 4, quick_keep: 1000 },
+        Fam { prop: "c04", body: "c04", batch: 40, kind: "V", timeout: 900, mem: 4, quick_keep: 1000 },
+        Fam { prop: "c06", body: "c06", batch: 4, kind: "V", timeout: 1800, mem: 4, quick_keep: 1000 },
+        Fam { prop: "c06", body: "c06_d", batch: 10, kind: "W", timeout: 1500, mem: 4, quick_keep: 1000 },
+        Fam { prop: "c07", body: "c07", batch: 4, kind: "V", timeout: 1800, mem: 4, quick_keep: 750 },
+        Fam { prop: "c09", body: "c09", batch: 8, kind: "W", timeout: 1500, mem: 4, quick_keep: 1000 },
+        Fam { prop: "c17", body: "c17", batch: 8, kind: "W", timeout: 1500, mem: 4, quick_keep: 1000 },
+        Fam { prop: "c13", body: "c13", batch: 6, kind: "W", timeout: 1500, mem: 4, quick_keep: 350 },
     ];
     let mut src = String::from("// generated - do not edit\n#![allow(clippy::all)]\nuse super::shapes::*;\n");
     for f in &fams {
-        let idx: Vec<usize> = (0..all.len()).filter(|&i| applicable(f, &all[i])).collect();
+        let keep = |g: &GShape| {
+            tier == "thorough"
+                || f.quick_keep >= 1000
+                || crate::gen::hash_str(&format!("{}{}", g.name, g.ctx), 11) % 1000 < f.quick_keep
+                // the lock-value dimension is the symbolic one for C13: shapes with lock atoms always
+                || (f.body == "c13" && !(g.abs.is_empty() && g.rel.is_empty()))
+        };
+        let idx: Vec<usize> = (0..all.len()).filter(|&i| applicable(f, &all[i]) && keep(&all[i])).collect();
         for (bi, chunk) in idx.chunks(f.batch).enumerate() {
             let name = format!("{}_{}_{:03}", f.prop, if f.body == "c06_d" { "d" } else { "w" }, bi);
             let mut unwind = 12usize;
